@@ -72,62 +72,7 @@ func checkC07(c *Ctx) {
 	}
 
 	// ---------------- R1
-	nLS := 0
-	for _, fn := range p.FuncsIn(redisPkg) {
-		if p.isTestFn(fn) {
-			continue
-		}
-		eachInstr(fn, func(_ *ssa.BasicBlock, _ int, in ssa.Instruction) {
-			call, ok := in.(*ssa.Call)
-			if !ok || !isCallTo(call, "(*sync.Map).LoadOrStore") {
-				return
-			}
-			if f, _ := fieldAddr(call.Call.Args[0]); f != calls {
-				return
-			}
-			nLS++
-			site := fmt.Sprintf("%s in-flight entry#%d", fnKey(fn), nLS)
-			key := call.Call.Args[1]
-			// winner branch: loaded == false
-			var winB *ssa.BasicBlock
-			for _, r := range *call.Referrers() {
-				if ex, ok := r.(*ssa.Extract); ok && ex.Index == 1 {
-					for _, rr := range *ex.Referrers() {
-						if iff, ok := rr.(*ssa.If); ok {
-							winB = iff.Block().Succs[1]
-						}
-					}
-				}
-			}
-			if winB == nil {
-				c.Undecided("R1", site, call.Pos(), "cannot find the branch on `loaded`")
-				return
-			}
-			isDelete := func(x ssa.Instruction) bool {
-				cc := callOf(x)
-				if cc == nil {
-					return false
-				}
-				g := calleeFn(cc)
-				if g == nil || g.String() != "(*sync.Map).Delete" {
-					return false
-				}
-				f, _ := fieldAddr(cc.Args[0])
-				return f == calls && stripConv(cc.Args[1]) == stripConv(key)
-			}
-			path := findPath(ipos{winB, -1}, pathQuery{target: isReturn, avoid: isDelete})
-			if path != nil {
-				c.Fail("R1", site, call.Pos(), "the goroutine that wins LoadOrStore returns without deleting the key ("+p.pathString(path)+"): the finished entry stays in the map, so after one reset or one refused connect every later request for that address gets the cached dead connection or the cached error for ever")
-			} else {
-				c.OK("R1", site, call.Pos(), "every path of the winner crosses createClientCalls.Delete(key)")
-			}
-			// losers only wait and read the result
-			_ = types.Typ
-		})
-	}
-	if nLS == 0 {
-		c.Unresolved("R1", "no LoadOrStore on upstream.createClientCalls")
-	}
+	checkSingleflightEntry(c, "R1", calls)
 
 	// ---------------- R2
 	start := p.Func(redisPkg, "(*client).Start")
@@ -381,15 +326,53 @@ func checkParsedViewApplied(c *Ctx, rule string) {
 		return
 	}
 	n := 0
-	for _, ed := range p.callersOf(parse) {
-		fn := ed.Caller.Func
-		if p.isTestFn(fn) {
-			continue
+	// call sites of the parser; a function that hands the parser's results straight on (return parse(...)) is looked
+	// through to its own callers
+	type site struct {
+		fn   *ssa.Function
+		call *ssa.Call
+	}
+	var sites []site
+	var collect func(g *ssa.Function, depth int)
+	collect = func(g *ssa.Function, depth int) {
+		for _, ed := range p.callersOf(g) {
+			fn := ed.Caller.Func
+			if p.isTestFn(fn) {
+				continue
+			}
+			call, ok := ed.Site.(*ssa.Call)
+			if !ok {
+				continue
+			}
+			passThrough := false
+			if depth > 0 {
+				for _, r := range *call.Referrers() {
+					if ret, isRet := r.(*ssa.Return); isRet && len(ret.Results) == 2 {
+						passThrough = true
+					}
+					if ex, isEx := r.(*ssa.Extract); isEx && ex.Index == 1 {
+						onlyReturned := len(*ex.Referrers()) > 0
+						for _, r2 := range *ex.Referrers() {
+							if _, isRet := r2.(*ssa.Return); !isRet {
+								onlyReturned = false
+							}
+						}
+						if onlyReturned {
+							passThrough = true
+						}
+					}
+				}
+			}
+			if passThrough {
+				collect(fn, depth-1)
+				continue
+			}
+			sites = append(sites, site{fn, call})
 		}
-		call, ok := ed.Site.(*ssa.Call)
-		if !ok {
-			continue
-		}
+	}
+	collect(parse, 2)
+	for _, st := range sites {
+		fn, call := st.fn, st.call
 		n++
 		site := "parsed view applied in " + fnKey(fn)
 		// success edge: err == nil
@@ -468,3 +451,68 @@ func checkCloseBeforeJoin(c *Ctx, rule string) {
 			c.Check(okc, rule, fnKey(fn)+" closes the connection before joining the writer", fn.Pos(), "reader returns -> conn.Close() -> join", "after the reader returns the connection is not closed before the writer is joined: a writer blocked in a socket write (backend stopped reading) is never woken, the connection's goroutine never ends, its queued requests are never answered and the dead connection is never replaced")
 		}
 	}
+
+// checkSingleflightEntry (C07.R1, C04.R7): the in-flight entry of a connect attempt is deleted by the goroutine that won
+// it on every path, before the waiters are released - a finished entry that stays in the map pins every later request
+// for that address to the old result (a dead connection, or the error of one failed dial).
+func checkSingleflightEntry(c *Ctx, rule string, calls *types.Var) {
+	p := c.P
+	// ---------------- R1
+	nLS := 0
+	for _, fn := range p.FuncsIn(redisPkg) {
+		if p.isTestFn(fn) {
+			continue
+		}
+		eachInstr(fn, func(_ *ssa.BasicBlock, _ int, in ssa.Instruction) {
+			call, ok := in.(*ssa.Call)
+			if !ok || !isCallTo(call, "(*sync.Map).LoadOrStore") {
+				return
+			}
+			if f, _ := fieldAddr(call.Call.Args[0]); f != calls {
+				return
+			}
+			nLS++
+			site := fmt.Sprintf("%s in-flight entry#%d", fnKey(fn), nLS)
+			key := call.Call.Args[1]
+			// winner branch: loaded == false
+			var winB *ssa.BasicBlock
+			for _, r := range *call.Referrers() {
+				if ex, ok := r.(*ssa.Extract); ok && ex.Index == 1 {
+					for _, rr := range *ex.Referrers() {
+						if iff, ok := rr.(*ssa.If); ok {
+							winB = iff.Block().Succs[1]
+						}
+					}
+				}
+			}
+			if winB == nil {
+				c.Undecided(rule, site, call.Pos(), "cannot find the branch on `loaded`")
+				return
+			}
+			isDelete := func(x ssa.Instruction) bool {
+				cc := callOf(x)
+				if cc == nil {
+					return false
+				}
+				g := calleeFn(cc)
+				if g == nil || g.String() != "(*sync.Map).Delete" {
+					return false
+				}
+				f, _ := fieldAddr(cc.Args[0])
+				return f == calls && stripConv(cc.Args[1]) == stripConv(key)
+			}
+			path := findPath(ipos{winB, -1}, pathQuery{target: isReturn, avoid: isDelete})
+			if path != nil {
+				c.Fail(rule, site, call.Pos(), "the goroutine that wins LoadOrStore returns without deleting the key ("+p.pathString(path)+"): the finished entry stays in the map, so after one reset or one refused connect every later request for that address gets the cached dead connection or the cached error for ever")
+			} else {
+				c.OK(rule, site, call.Pos(), "every path of the winner crosses createClientCalls.Delete(key)")
+			}
+			// losers only wait and read the result
+			_ = types.Typ
+		})
+	}
+	if nLS == 0 {
+		c.Unresolved(rule, "no LoadOrStore on upstream.createClientCalls")
+	}
+
+}
